@@ -11,6 +11,13 @@ import (
 	"github.com/google/jsonschema-go/jsonschema"
 )
 
+type stressRS struct {
+	rs   *jsonschema.Resolved
+	want bool
+}
+
+var stressShared map[int]stressRS
+
 type stressT struct {
 	Name  string            `json:"name"`
 	Tags  []string          `json:"tags,omitempty"`
@@ -101,6 +108,13 @@ func runStress(seed int64) Result {
 	}
 	// For on a shared type (struct-field caches), ApplyDefaults on distinct instances
 	// of one Resolved, and Resolve of roots sharing one Loader document.
+	stressShared = map[int]stressRS{}
+	for _, sc := range concScenarios[:2] {
+		rs, _ := concResolved(sc)
+		var v any
+		json.Unmarshal([]byte(sc.I1), &v)
+		stressShared[sc.ID] = stressRS{rs, rs.Validate(v) == nil}
+	}
 	wantFor, err := jsonschema.For[stressT](nil)
 	if err != nil {
 		panic(err)
@@ -109,6 +123,10 @@ func runStress(seed int64) Result {
 	var ds jsonschema.Schema
 	json.Unmarshal([]byte(`{"properties":{"a":{"default":1},"o":{"properties":{"x":{"default":"d"}}}}}`), &ds)
 	drs, _ := ds.Resolve(nil)
+	// a schema with several defaults: Resolve(ValidateDefaults) validates each of them
+	var vds jsonschema.Schema
+	json.Unmarshal([]byte(`{"properties":{"a":{"type":"integer","default":1},"b":{"type":"string","default":"x"},
+	  "c":{"type":"array","default":[1],"items":{"type":"integer","default":2}},"d":{"default":null}},"default":{}}`), &vds)
 	var remote jsonschema.Schema
 	json.Unmarshal([]byte(`{"$defs":{"t":{"$anchor":"a","type":"integer"}}}`), &remote)
 	loader := func(u *url.URL) (*jsonschema.Schema, error) { return &remote, nil }
@@ -139,6 +157,23 @@ func runStress(seed int64) Result {
 					mu.Lock()
 					addFail("concurrent-defaults", "ApplyDefaults", `{"a":1,"o":{"x":"d"}}`, fmt.Sprint(inst, err))
 					mu.Unlock()
+				}
+				if _, err := vds.Resolve(&jsonschema.ResolveOptions{ValidateDefaults: true}); err != nil {
+					mu.Lock()
+					addFail("concurrent-validate-defaults", "Resolve(ValidateDefaults)", "nil", err.Error())
+					mu.Unlock()
+				}
+				{
+					// Validate calls racing with the ValidateDefaults resolves
+					sc := concScenarios[(g+m)%2]
+					rs0 := stressShared[sc.ID]
+					var v any
+					json.Unmarshal([]byte(sc.I1), &v)
+					if got := rs0.rs.Validate(v) == nil; got != rs0.want {
+						mu.Lock()
+						addFail("concurrent-validate", fmt.Sprintf("scenario %d during ValidateDefaults resolves", sc.ID), rs0.want, got)
+						mu.Unlock()
+					}
 				}
 				root := mkRoot((g+m)%2 == 0)
 				rs, err := root.Resolve(&jsonschema.ResolveOptions{BaseURI: "http://h/root.json", Loader: loader})
